@@ -13,6 +13,9 @@ From RV Require Import Proofs.NackProofs.
 From RV Require Import Model.Rtcp.
 From RV Require Import Proofs.RtcpProofs.
 From RV Require Import Proofs.RtcpTotal.
+From RV Require Import Proofs.RtcpBack.
+From RV Require Import Model.NackSend.
+From RV Require Import Proofs.NackSendProofs.
 Import ListNotations.
 Open Scope Z_scope.
 
@@ -205,7 +208,7 @@ Proof. exact nack_step_emits. Qed.
    valid x = valid_fields x && fits x is an explicit boolean (Proofs/RtcpProofs.v): Rust field ranges; at most 31
    report blocks / SDES chunks / BYE sources; packets_lost in [-2^23, 2^23); SDES item type 1..255 and text
    <= 255 bytes of clean UTF-8; BYE reason <= 255 bytes of clean UTF-8; non-empty NACK list; REMB bitrate < 2^64
-   with <= 255 SSRCs; TWCC reference time < 2^24 and payload length a multiple of 4; encoding <= 2^18 bytes.
+   with <= 255 SSRCs; TWCC reference time < 2^24 (any payload length); encoding <= 2^18 bytes.
    canon is the identity except NACK (lost list becomes sorted / de-duplicated: same set, C15_rtcp_canon_nack)
    and REMB (bits below the 18-bit mantissa are cleared by the format, C15_remb_trunc). *)
 Theorem C15_rtcp_roundtrip : forall xs,
@@ -263,14 +266,14 @@ Proof. exact marshal_refuses_long_item. Qed.
 Theorem C15_rtcp_ascii_text_is_clean : forall t, Forall (fun b => 0 <= b < 128) t -> utf8_lossy t = t.
 Proof. exact ascii_clean. Qed.
 
-(* open finding F26 (known_findings.d/C15.jsonl, class twcc_unaligned_payload): an opaque TWCC payload whose
-   length is not a multiple of 4 is zero-padded without the RTCP padding bit, so it comes back longer; this is why
-   valid demands `len payload mod 4 = 0` *)
-Theorem C15_rtcp_twcc_unaligned_refuted :
-  valid_fields (TWCC 1 2 3 1 5 0 [32; 0; 0; 0]) = true /\
-  exists bs, marshal_rtcp [twcc_witness] = Ok bs /\ parse_rtcp bs = Ok [TWCC 1 2 3 1 5 0 [32; 0; 0; 0]] /\
-             parse_rtcp bs <> Ok [twcc_witness].
-Proof. exact twcc_unaligned_refuted. Qed.
+(* finding F26 (fixed in /repo 9d24b1e): a TWCC whose opaque payload is not 32-bit aligned is written with RFC 3550
+   padding (P bit + pad count) and comes back unchanged -- valid no longer restricts the payload length *)
+Theorem C15_rtcp_twcc_unaligned_roundtrip :
+  (forall s m ba c rf fb pl, valid (TWCC s m ba c rf fb pl) = true ->
+     exists bs, marshal_rtcp [TWCC s m ba c rf fb pl] = Ok bs /\ parse_rtcp bs = Ok [TWCC s m ba c rf fb pl]) /\
+  valid twcc_witness = true /\
+  marshal_rtcp [twcc_witness] = Ok [175; 205; 0; 5; 0; 0; 0; 1; 0; 0; 0; 2; 0; 3; 0; 1; 0; 0; 5; 0; 32; 0; 0; 3].
+Proof. exact twcc_unaligned_roundtrip. Qed.
 
 (* satisfiability: one compound with every packet type at its boundary values is valid and round-trips *)
 Theorem C15_rtcp_example :
@@ -282,3 +285,118 @@ Proof. exact example_compound_ok. Qed.
    fuel exhaustion counts as Panic, so this includes termination) *)
 Theorem C15_rtcp_parse_total : forall raw, bytes raw -> parse_rtcp raw <> Panic.
 Proof. exact parse_rtcp_total. Qed.
+
+(* ---- the other direction for RTCP ----
+   String::from_utf8_lossy (as modelled) is idempotent and keeps bytes: a decoded text is a fixed point *)
+Theorem C15_utf8_lossy_idem : forall l, utf8_lossy (utf8_lossy l) = utf8_lossy l.
+Proof. exact utf8_lossy_idem. Qed.
+
+Theorem C15_utf8_lossy_bytes : forall l, bytes l -> bytes (utf8_lossy l).
+Proof. exact utf8_lossy_bytes. Qed.
+
+(* a decoded REMB bitrate (18-bit mantissa shifted by a 6-bit exponent, wrapped to u64) re-encodes exactly *)
+Theorem C15_remb_decoded_stable : forall mant e0,
+  0 <= mant <= 262143 -> 0 <= e0 < 64 ->
+  remb_decoded (cast_u64 (Z.shiftl mant e0)) = cast_u64 (Z.shiftl mant e0).
+Proof. exact remb_stable. Qed.
+
+(* whatever parse_rtcp_packets returns, from any byte string, lies inside the field part of `valid` as soon as its
+   decoded texts are <= 255 bytes (always so for valid UTF-8 input) and a NACK is not empty *)
+Theorem C15_rtcp_parsed_valid : forall bs xs,
+  bytes bs -> parse_rtcp bs = Ok xs ->
+  Forall (fun x => text_short x = true -> nack_ne x = true -> valid_fields x = true) xs.
+Proof. exact rtcp_parsed_valid. Qed.
+
+(* ... hence it re-serialises, and the re-serialisation parses to the same packets: exactly for every type but NACK
+   (whose lost list comes back as the same set), for all nine types incl. SDES / BYE *)
+Theorem C15_rtcp_parse_marshal_parse : forall bs xs,
+  bytes bs -> parse_rtcp bs = Ok xs ->
+  forallb text_short xs = true -> forallb nack_ne xs = true -> forallb fits xs = true ->
+  exists bs', marshal_rtcp xs = Ok bs' /\ parse_rtcp bs' = Ok (map canon xs) /\
+              Forall (fun x => not_nack x = true -> canon x = x) xs /\
+              (forallb not_nack xs = true -> parse_rtcp bs' = Ok xs).
+Proof. exact rtcp_parse_marshal_parse. Qed.
+
+(* ---- sender-side NACK buffer (NackSendBuffer) and resend cooldown (DefaultRtpSenderNackHandler) ----
+   sb_run max ps = the buffer after on_packet_sent of ps in order; max >= 1 is what `new` guarantees. *)
+
+(* bound and index invariants, for every history of sent packets (repeated sequence numbers, wrap-around included) *)
+Theorem C15_sender_buffer_invariant : forall max ps,
+  1 <= max ->
+  let b := sb_run max ps in
+  sb_len b <= max /\ sb_len b = len (sb_order b) /\ NoDup (sb_order b) /\
+  (forall k, In k (sb_order b) <-> (exists p, sb_get b k = Some p)) /\
+  (forall k p, sb_get b k = Some p -> pseq p = k /\ In p ps).
+Proof. exact sender_buffer_invariant. Qed.
+
+Theorem C15_sender_buffer_latest : forall max ps p,
+  1 <= max -> sb_get (sb_run max (ps ++ [p])) (pseq p) = Some p.
+Proof. exact sender_buffer_latest. Qed.
+
+(* with pairwise distinct sequence numbers the buffer is exactly the window of the last `max` packets *)
+Theorem C15_sender_buffer_window : forall max, 1 <= max -> forall ps,
+  NoDup (map pseq ps) ->
+  sb_order (sb_run max ps) = map pseq (drop (len ps - max) ps) /\
+  (forall p, In p (drop (len ps - max) ps) -> sb_get (sb_run max ps) (pseq p) = Some p) /\
+  (forall p, In p ps -> ~ In p (drop (len ps - max) ps) -> sb_get (sb_run max ps) (pseq p) = None).
+Proof. exact sender_buffer_window. Qed.
+
+(* packets_for_nack: exactly the requested, buffered, non-cooling sequence numbers, each once *)
+Theorem C15_sender_nack_spec : forall h seqs now h' out,
+  indexed h -> sh_packets_for_nack h seqs now = (h', out) ->
+  (forall p, In p out -> In (pseq p) seqs /\ sb_get (sh_buf h) (pseq p) = Some p /\ cooling (sh_recent h) (pseq p) now = false) /\
+  (forall seq p, In seq seqs -> sb_get (sh_buf h) seq = Some p -> cooling (sh_recent h) seq now = false -> In p out) /\
+  NoDup (map pseq out) /\ sh_supp h <= sh_supp h' /\ sh_buf h' = sh_buf h /\ sh_max h' = sh_max h /\ sh_rtx h' = sh_rtx h.
+Proof. exact packets_for_nack_spec. Qed.
+
+(* a sequence number handed out at t1 is not handed out again by the next call while t2 - t1 < NACK_RESEND_COOLDOWN *)
+Theorem C15_sender_cooldown : forall h seqs1 t1 h1 out1 seqs2 t2 h2 out2 p,
+  indexed h -> 0 < NACK_RESEND_COOLDOWN_US ->
+  sh_packets_for_nack h seqs1 t1 = (h1, out1) -> sh_packets_for_nack h1 seqs2 t2 = (h2, out2) ->
+  In p out1 -> since t2 t1 < NACK_RESEND_COOLDOWN_US ->
+  forall q, In q out2 -> pseq q <> pseq p.
+Proof. exact cooldown_suppresses. Qed.
+
+Theorem C15_sender_on_sent : forall h p, 1 <= sh_max h -> (exists ps, Inv (sh_buf h) (sh_max h) ps) ->
+  exists ps', Inv (sh_buf (sh_on_sent h p)) (sh_max (sh_on_sent h p)) ps' /\
+  (sh_rtx h <> 0 /\ h_ssrc (p_hdr p) = sh_rtx h -> sh_on_sent h p = h) /\
+  (~ (sh_rtx h <> 0 /\ h_ssrc (p_hdr p) = sh_rtx h) -> sb_get (sh_buf (sh_on_sent h p)) (pseq p) = Some p).
+Proof. exact on_sent_indexed. Qed.
+
+(* the repository's unit tests sender_nack_buffer_bounded_and_indexed and
+   sender_nack_suppresses_duplicate_resend_within_cooldown, evaluated on the model *)
+Theorem C15_sender_test_bounded_and_indexed :
+  let h := fold_left sh_on_sent (map tp [1; 2; 3; 4; 5; 6; 7; 8; 9; 10]) (sh_new 4) in
+  sb_len (sh_buf h) = 4 /\
+  snd (sh_packets_for_nack h [7; 8; 9; 10] 0) = map tp [7; 8; 9; 10] /\
+  snd (sh_packets_for_nack h [1; 2; 3; 4; 5; 6] 0) = [].
+Proof. exact test_bounded_and_indexed. Qed.
+
+Theorem C15_sender_test_cooldown :
+  let h0 := sh_on_sent (sh_new 8) (tp 50) in
+  let '(h1, first) := sh_packets_for_nack h0 [50; 50] 0 in
+  let '(h2, second) := sh_packets_for_nack h1 [50] 5000 in
+  let '(h3, third) := sh_packets_for_nack h2 [50] 26000 in
+  first = [tp 50] /\ sh_supp h1 = 1 /\ second = [] /\ sh_supp h2 = 2 /\ third = [tp 50].
+Proof. exact test_cooldown. Qed.
+
+(* ---- two-byte header extensions (RFC 8285, profile 0x1000) ----
+   enc2 elems trail = the block made of the elements (id, data), each preceded by `pad` zero octets, then `trail`
+   zero octets; find2 = first element with that id.  The stack only reads this form: *)
+Theorem C15_ext2_get : forall h elems trail id,
+  h_ext h = Some (mkExt EXT_TWO_BYTE (enc2 elems trail)) ->
+  Forall (fun x => snd (fst x) <> 0) elems ->
+  get_extension h id = Ok (find2 elems id).
+Proof. exact get_extension_twobyte. Qed.
+
+(* ... set_extension refuses to rewrite it (and any other non-0xBEDE profile), for all arguments; being an error
+   return, the header is left as it was *)
+Theorem C15_ext2_set_refused : forall h e id data,
+  h_ext h = Some e -> x_profile e <> EXT_ONE_BYTE -> set_extension h id data = Err EInvalidHeader.
+Proof. exact set_extension_refuses_other_profiles. Qed.
+
+Theorem C15_ext2_example :
+  get_extension (mkHdr false 96 1 2 3 [] (Some (mkExt 4096 (enc2 [(1%nat, 200, [7; 8; 9]); (0%nat, 5, []); (2%nat, 200, [1])] 3%nat)))) 200 = Ok (Some [7; 8; 9]) /\
+  get_extension (mkHdr false 96 1 2 3 [] (Some (mkExt 4096 (enc2 [(1%nat, 200, [7; 8; 9]); (0%nat, 5, []); (2%nat, 200, [1])] 3%nat)))) 5 = Ok (Some []) /\
+  get_extension (mkHdr false 96 1 2 3 [] (Some (mkExt 4096 (enc2 [(1%nat, 200, [7; 8; 9]); (0%nat, 5, []); (2%nat, 200, [1])] 3%nat)))) 6 = Ok None.
+Proof. exact twobyte_example. Qed.
